@@ -9,6 +9,7 @@ import sys
 def main() -> int:
     ap = argparse.ArgumentParser(prog="check")
     ap.add_argument("what")
+    ap.add_argument("rest", nargs="*")
     ap.add_argument("--tier", default=os.environ.get("VERIF_TIER", "quick"), choices=["quick", "thorough"])
     ap.add_argument("--replay", default=None)
     ap.add_argument("--seed", type=int, default=None)
@@ -19,7 +20,7 @@ def main() -> int:
         return setup()
     if a.what == "selftest":
         from .selftest import selftest
-        return selftest()
+        return selftest(a.rest)
     import logging
     logging.getLogger("aioswitcher").addHandler(logging.NullHandler())   # keep the library's log lines off stderr
     from . import props
